@@ -23,7 +23,7 @@ REQUIRED = [
     "request_object_served_only_if", "request_object_burned_by_any_fetch", "leg_request_object_carries_its_nonce", "fact_request_object_endpoints",
     "policy_load_exact", "s2s_scope_comes_from_a_policy_file", "policy_load_error_kinds", "fact_policy_loader",
     "fact_jar_parse_shape", "fact_jar_validate_shape", "fact_params_get", "fact_authorize_dispatch", "fact_token_dispatch", "fact_oauth_names",
-    "dpop_valid_only_if", "dpop_not_valid_leaves_state", "dpop_proof_accepted_at_most_once", "fact_dpop_validate_shape", "fact_once_only_store_keys",
+    "dpop_valid_only_if", "dpop_not_valid_leaves_state", "dpop_proof_accepted_at_most_once", "dpop_binding_end_to_end", "fact_dpop_validate_shape", "fact_once_only_store_keys",
     "fact_verifyvp_args", "fact_audience_exact", "fact_deciding_conditions", "fact_windows", "fact_store_prefixes_distinct", "fact_introspection_fields", "fact_access_token_init", "fact_introspection_init",
 ]
 
@@ -485,7 +485,17 @@ class Oracle:
         t = op["t"]
         if d.get("broken") or not d.get("htm") or not d.get("htu") or not d.get("jti"):
             self.bad("dpop-proof-valid-despite:unparseable-or-unsigned", f"op {i}: proof {d.get('broken') or 'without htm/htu/jti'} answered valid", [i])
-        if d["key"] % 3 != d["thumb_key"] % 3 or d.get("thumb_var"):
+        if d.get("thumb_from"):
+            # the thumbprint came from the real introspection of that token: the proof must be by the key the token was bound to at
+            # issuance, and the token must still be active
+            src = self.tokens.get(d["thumb_from"])
+            bound = ((src[1].get("dpop") or {}) if src else {})
+            if src is None or bound.get("kind") != "valid" or bound.get("idx", 0) % 3 != d["key"] % 3:
+                self.bad("dpop-proof-valid-despite:signed-by-another-key-than-the-bound-one",
+                         f"op {i}: proof signed by key {d['key']}, token {d['thumb_from']!r} bound at issuance to {bound or 'no key'}", [src[0], i] if src else [i])
+            elif t > src[1]["t"] + self.validity + 1000:
+                self.bad("dpop-proof-valid-for-expired-token", f"ops {src[0]},{i}: key binding of a token issued {(t - src[1]['t']) // 10**6} ms ago", [src[0], i])
+        elif d["key"] % 3 != d["thumb_key"] % 3 or d.get("thumb_var"):
             self.bad("dpop-proof-valid-despite:signed-by-another-key-than-the-bound-one",
                      f"op {i}: proof signed by key {d['key']}, thumbprint supplied: key {d['thumb_key']} {d.get('thumb_var', '')}", [i])
         if d["method"] != d["htm"]:
@@ -495,6 +505,8 @@ class Oracle:
         if d.get("ath_kind") or (d.get("ath_of") and d["ath_of"] != d["token"]):
             self.bad("dpop-proof-valid-despite:not-bound-to-this-access-token",
                      f"op {i}: ath {d.get('ath_kind') or 'of ' + d.get('ath_of', '')}, token under validation {d['token']!r}", [i])
+        if op.get("fault") == "jti-get":
+            self.bad("dpop-proof-valid-despite:jti-store-failure", f"op {i}: the read of the jti entry failed, answer valid", [i])
         prev = self.jtis.get(d["jti"])
         if prev is not None and t - prev[1] < self.validity - 10**9:
             self.bad("dpop-proof-accepted-twice-within-token-lifetime",
